@@ -19,10 +19,11 @@ var Strings = []string{"", "a", "b", "abc", "ab*c", "*", "**", "a b", "A", "if",
 	"q\"t", "back\\slash", "tab\t", "nl\n", "cr\r", "nul\x00", "bell\a", "del\x7f", "esc\x1b[0m", "nbsp\u00a0x",
 	"\u00e9", "\u0301lead", "e\u0301", "\ufffd", "a\ufffdb", "emoji\U0001F600", "\U0001D4B3", "\u65e5\u672c\u8a9e", "'", " ", "\u200b", "\u202e", "x.y", "__cedar", "0", "-1",
 	"\u0085", "\u2028", "\ufeff", "\U000E0001", "\U0010FFFF", "\ud7ff", "\ue000",
-	"ends in backslash\\", "\\", "ends in quote\"", "C:\\dir\\", "010", "in", "__cedarx", "x__cedar"}
+	"ends in backslash\\", "\\", "ends in quote\"", "C:\\dir\\", "010", "in", "__cedarx", "x__cedar",
+	"\\u003c", "a\\u0026b\\u003e", "<>&", "\u2028\\u2028", "</script>"}
 
-var EntityTypes = []string{"U", "G", "NS::T", "Action", "A::B::C"}
-var EntityIDs = []string{"a", "b", "c", "d", "", "x y", "q\"t", "\u00e9", "\x00", "nl\n", "dir\\"}
+var EntityTypes = []string{"U", "G", "NS::T", "Action", "A::B::C", "A::B", "A"}
+var EntityIDs = []string{"a", "b", "c", "d", "", "x y", "q\"t", "\u00e9", "\x00", "nl\n", "dir\\", "C::a", "B::C::a"}
 
 var AttrNames = []string{"a", "b", "n", "s", "e", "set", "rec", "if", "in", "has space", "", "\u00e9", "q\"t", "__x"}
 
